@@ -17,7 +17,7 @@ ASSUMPTIONS = [
     "cases in which a member alone, or the operations applied to the other members alone, raise are skipped (C09 / C14 own those)",
     "names differ through parameters or name_suffix; fullname_override is generated only for names equal to a composite's internal registry aliases (signal, dx, ST_data, ...)",
 ]
-PARTIAL = "proved for all 27 classes: operations aimed at b never touch a; presence/order independence of a's readings given disjoint names and reads (TreeOK, decidable) for a member handed to the constructor, with or without its own timeframe (presence); and for a member WITHOUT its own timeframe added later by add_indicator at any point, under any Hexital-level timeframe / fill, other members coming and going, different chunking (presence_late, presence_late_covered). Open (presence_FULL): a late-added member WITH its own timeframe or under Heikin-Ashi: correspondence + search. The first formulation of that statement is refuted (presence_FULL_v1_false: it did not tie operations aimed at a itself)"
+PARTIAL = "proved for all 27 classes: operations aimed at b never touch a; presence/order independence of a's readings given disjoint names and reads (TreeOK, decidable) for a member handed to the constructor, with or without its own timeframe (presence); for a member added later by add_indicator at any point, other members coming and going, different chunking: without its own timeframe under any Hexital-level timeframe / fill / Heikin-Ashi (presence_late_covered, presence_late_ha_covered), WITH its own timeframe on a Hexital without timeframe of its own, plain or Heikin-Ashi (presence_late_tf_covered) - on well-formed streams. Both general formulations first written down are refuted (presence_FULL_v1_false: operations aimed at a itself; presence_FULL_false: unstamped candles). Open: late-added member with own timeframe on a Hexital with its own timeframe / lifespan (the result then legitimately depends on when it was added): correspondence + search"
 
 
 def oracle(ctx):
